@@ -10,22 +10,126 @@ Fixpoint flags_to_Z (l : list bool) : Z :=
   | b :: t => ((if b then 1 else 0) + 2 * flags_to_Z t)%Z
   end.
 
-(* the harness finishes every case the same way: handleOpen is stepped twice
-   more, every Close three times, then readLoop once (PeerConnection.Close and
-   the remote close happen only where the schedule says so) *)
-Definition full_schedule (nclose : nat) (sch : list Z) : list nat :=
-  filter (fun t => Nat.ltb t (4 + nclose)) (map Z.to_nat (filter (fun z => Z.leb 0 z) sch))
-  ++ [0; 0] ++ flat_map (fun j => repeat (4 + j) 3) (seq 0 nclose) ++ [3].
+(* schedule tokens of the harness: 0 handleOpen, 1 PeerConnection.Close,
+   2 remote close, 3 readLoop exit, 4+j the j-th Close/GracefulClose,
+   20+i OnOpen registration i, 30+i OnClose registration i, 60 Detach,
+   61 Send, 62 SendText; anything else is dropped (by the harness too) *)
+Definition decode (c : config) (z : Z) : option tid :=
+  if (z <? 0)%Z then None else
+  let n := Z.to_nat z in
+  if n =? 0 then Some TOpen else if n =? 1 then Some TPc else if n =? 2 then Some TRem
+  else if n =? 3 then Some TRl
+  else if n <? 20 then (if n - 4 <? length (closer_kinds c) then Some (TClose (n - 4)) else None)
+  else if n <? 30 then (if n - 20 <? n_reg_open c then Some (TRegO (n - 20)) else None)
+  else if n <? 40 then (if n - 30 <? n_reg_close c then Some (TRegC (n - 30)) else None)
+  else if n =? 60 then Some TDetach
+  else if (n =? 61) || (n =? 62) then Some TSend
+  else None.
 
-Definition run_sched (inp : Z * list Z) : V :=
-  match inp with
-  | (nclose, sch) =>
-      let n := Z.to_nat nclose in
-      match run_trace (init n) (full_schedule n sch) with
-      | (s, fl, obs) =>
-          VL [ VZ (flags_to_Z fl);
-               VL (map (fun r => Vnat (rank r)) obs);
-               Vnat (open_calls s); Vnat (close_calls s);
-               VB (match send s with SendClosedPipe => true | SendWritten => false end) ]
+Fixpoint decode_all (c : config) (l : list Z) : list tid :=
+  match l with
+  | [] => []
+  | z :: t => match decode c z with Some x => x :: decode_all c t | None => decode_all c t end
+  end.
+
+(* the harness finishes every case the same way *)
+Definition suffix (c : config) : list tid :=
+  [TOpen; TOpen; TOpen]
+  ++ flat_map (fun j => [TClose j; TClose j; TClose j]) (seq 0 (length (closer_kinds c)))
+  ++ [TRl; TRl]
+  ++ map TClose (seq 0 (length (closer_kinds c)))
+  ++ flat_map (fun i => [TRegO i; TRegO i]) (seq 0 (n_reg_open c))
+  ++ flat_map (fun i => [TRegC i; TRegC i]) (seq 0 (n_reg_close c)).
+
+(* the handler goroutines carry no yield point: on the real code they run
+   right after they are spawned (the harness waits for them after every block) *)
+Fixpoint drain_o (v : variant) (fuel : nat) (s : st) : st :=
+  match fuel with
+  | O => s
+  | S f => match ev_do v (evo s) 0 with Some e => drain_o v f (set_evo s e) | None => s end
+  end.
+Fixpoint drain_c (v : variant) (fuel : nat) (s : st) : st :=
+  match fuel with
+  | O => s
+  | S f => match ev_do v (evc s) 0 with Some e => drain_c v f (set_evc s e) | None => s end
+  end.
+Definition drain (v : variant) (s : st) : st :=
+  let s1 := drain_o v (length (pend (evo s))) s in
+  drain_c v (length (pend (evc s1))) s1.
+
+(* coarse schedules: dcfire.* / dcreg.* are not yield points of the run, the
+   thread runs on through them *)
+Definition at_fine_point (s : st) (t : tid) : bool :=
+  match t with
+  | TOpen => match o_pc s with OFireOpen _ | OFireClose _ => true | _ => false end
+  | TRl => match rl_pc s with RFire _ => true | _ => false end
+  | TRegO i => match nth_error (regs_o s) i with Some GCheck => true | _ => false end
+  | TRegC i => match nth_error (regs_c s) i with Some GCheck => true | _ => false end
+  | _ => false
+  end.
+Fixpoint run_on (v : variant) (c : config) (fuel : nat) (s : st) (t : tid) : st :=
+  match fuel with
+  | O => s
+  | S f => if at_fine_point s t
+           then match step v c s t with Some s' => run_on v c f s' t | None => s end
+           else s
+  end.
+Definition hstep (v : variant) (c : config) (fine : bool) (s : st) (t : tid) : option st :=
+  match step v c s t with
+  | Some s' => Some (drain v (if fine then s' else run_on v c 4 s' t))
+  | None => None
+  end.
+
+Definition send_code (r : send_result) : Z :=
+  match r with
+  | SendClosedPipe => 0 | SendStreamClosed => 1 | SendWritten => 2
+  | SendNilChannel => 7 | SendTransport => 9
+  end%Z.
+Definition detach_code (r : detach_result) : Z :=
+  match r with DetachNotEnabled => 0 | DetachBeforeOpened => 1 | DetachOk => 2 end%Z.
+
+(* observation of an enabled block: the readyState afterwards; for Send and
+   Detach their result instead *)
+Definition observe (c : config) (before after : st) (t : tid) : Z :=
+  match t with
+  | TSend => (10 + send_code (send before))%Z
+  | TDetach => (20 + detach_code (detach_call c before))%Z
+  | _ => Z.of_nat (rank (rs after))
+  end.
+
+Fixpoint htrace (v : variant) (c : config) (fine : bool) (s : st) (sch : list tid)
+  : st * list bool * list Z :=
+  match sch with
+  | [] => (s, [], [])
+  | t :: rest =>
+      match hstep v c fine s t with
+      | Some s' => match htrace v c fine s' rest with
+                   | (f, fl, obs) => (f, true :: fl, observe c s s' t :: obs)
+                   end
+      | None => match htrace v c fine s rest with
+                | (f, fl, obs) => (f, false :: fl, obs)
+                end
       end
   end.
+
+Definition Zbool (z : Z) : bool := negb (z =? 0)%Z.
+
+Definition run_variant (v : variant)
+    (inp : Z * Z * list Z * Z * Z * Z * list Z) : V :=
+  match inp with
+  | (det, pre_reg, kinds, nro, nrc, fine, sch) =>
+      let c := {| detach := Zbool det; prereg := Zbool pre_reg; closer_kinds := map Zbool kinds;
+                  n_reg_open := Z.to_nat nro; n_reg_close := Z.to_nat nrc |} in
+      match htrace v c (Zbool fine) (init c) (decode_all c sch ++ suffix c) with
+      | (s, fl, obs) =>
+          VL [ VZ (flags_to_Z fl);
+               VL (map VZ obs);
+               VL (map (fun k => Vnat (calls (evo s) k)) (seq 0 (S (n_reg_open c))));
+               VL (map (fun k => Vnat (calls (evc s) k)) (seq 0 (S (n_reg_close c))));
+               VZ (send_code (send s)) ]
+      end
+  end.
+
+Definition run_sched := run_variant post.
+(* the code before the repairs (used while reproducing the recorded defects) *)
+Definition run_sched_pre := run_variant pre.
